@@ -264,6 +264,7 @@ def main():
     fired = collections.defaultdict(collections.Counter)      # clause -> corruption name -> count
     base_fail = collections.Counter()
     total = 0
+    machinery = []
     try:
         for name, camp in F.CAMPAIGNS.items():
             if camp.get("kind") == "recorded":
@@ -287,7 +288,12 @@ def main():
                     names[tid] = cname.split(":")[0] + (":" + cname.split(":")[1] if cname.count(":") else "")
             if not corrupted:
                 continue
-            j = P.judge(corrupted, wd, module=camp["judge"][0], cfg=camp["judge"][1], name="st_" + name)
+            try:
+                j = P.judge(corrupted, wd, module=camp["judge"][0], cfg=camp["judge"][1], name="st_" + name)
+            except P.Machinery as e:        # the judge must be total: report, keep going
+                machinery.append({"campaign": name, "error": str(e)[-600:]})
+                print("  selftest %-24s JUDGE NOT TOTAL on a corrupted trace (see SELFTEST.json)" % name, flush=True)
+                continue
             total += len(corrupted)
             for f in j["fails"]:
                 fired[f["clause"]][names[f["id"]]] += 1
@@ -297,7 +303,7 @@ def main():
     clauses = sorted(c for c in evaluated if not c.startswith("TRACE") and "out_of_domain" not in c)
     never = [c for c in clauses if c not in fired]
     rep = {"corrupted_traces_judged": total, "clauses_evaluated": len(clauses), "clauses_failing_under_some_corruption": len(clauses) - len(never),
-           "never_failed": never, "failing_on_uncorrupted_traces": dict(base_fail),
+           "never_failed": never, "judge_not_total": machinery, "failing_on_uncorrupted_traces": dict(base_fail),
            "which_corruption_fires_which_clause": {c: dict(v.most_common(4)) for c, v in sorted(fired.items())}}
     with open(os.path.join(ROOT, "seeded", "SELFTEST.json"), "w") as f:
         json.dump(rep, f, indent=1)
